@@ -53,14 +53,30 @@ func vdIsHarnessFrame(f runtime.Frame) bool {
 
 // first sarama (non-harness) function below the runtime's panic frames
 func vdSiteFromPCs(pcs []uintptr) string {
+	site, _ := vdSiteFromPCs2(pcs)
+	return site
+}
+
+// vdSiteFromPCs2 also tells whether the FIRST non-runtime frame is a harness frame: then the harness itself
+// faulted (no verdict about sarama). A fault in a library sarama called (compress/gzip, snappy ...) is
+// attributed to the first sarama frame below it.
+func vdSiteFromPCs2(pcs []uintptr) (site string, harnessFirst bool) {
 	fr := runtime.CallersFrames(pcs)
+	first := true
 	for {
 		f, more := fr.Next()
+		isRuntime := strings.HasPrefix(f.Function, "runtime.") || f.Function == ""
+		if !isRuntime && first {
+			first = false
+			if vdIsHarnessFrame(f) {
+				return "harness:" + vdTrimFunc(f.Function), true
+			}
+		}
 		if strings.Contains(f.Function, "Shopify/sarama.") && !vdIsHarnessFrame(f) {
-			return vdTrimFunc(f.Function)
+			return vdTrimFunc(f.Function), false
 		}
 		if !more {
-			return "?"
+			return "?", false
 		}
 	}
 }
@@ -112,11 +128,12 @@ var vdHangTimeout = 10 * time.Second
 // function is still running (hang) - the process must not continue.
 func vdGuard(fn func() ([]string, error)) (r vdRes, exit bool) {
 	type outT struct {
-		got   []string
-		err   error
-		pan   interface{}
-		site  string
-		stack string
+		got     []string
+		err     error
+		pan     interface{}
+		site    string
+		harness bool
+		stack   string
 	}
 	done := make(chan outT, 1)
 	// the watchdog timer is created before and stopped after the measured window (thousands of pending
@@ -132,7 +149,7 @@ func vdGuard(fn func() ([]string, error)) (r vdRes, exit bool) {
 				pcs := make([]uintptr, 64)
 				n := runtime.Callers(2, pcs)
 				o.pan = p
-				o.site = vdSiteFromPCs(pcs[:n])
+				o.site, o.harness = vdSiteFromPCs2(pcs[:n])
 			}
 			done <- o
 		}()
@@ -170,6 +187,11 @@ func vdGuard(fn func() ([]string, error)) (r vdRes, exit bool) {
 		}
 	}
 	switch {
+	case o.pan != nil && o.harness:
+		r.Res = "harness" // the harness itself faulted: inconclusive, never a verdict
+		r.Site = o.site
+		r.Err = fmt.Sprint(o.pan)
+		r.Got = []string{}
 	case o.pan != nil:
 		r.Res = "panic"
 		r.Site = o.site
@@ -265,6 +287,8 @@ type vdSubjInfo struct {
 }
 
 type vdBegin struct {
+	Name  string `json:"name"`
+	Ver   int    `json:"ver"`
 	Si    int    `json:"si"`
 	Ci    int    `json:"ci"`
 	InLen int    `json:"inlen"`
@@ -273,6 +297,9 @@ type vdBegin struct {
 }
 
 const vdAllocFloorKiB = 64
+
+// case index of the worker-start decodes
+const vdPreambleCi = -20
 
 func vdAllocBoundKiB(inlen int, comp bool) int {
 	b := vdAllocFloorKiB + (200*inlen)/1024 + 1
@@ -325,27 +352,88 @@ func TestVerifDecoderWorker(t *testing.T) {
 		ci0, _ = strconv.Atoi(resume[1])
 	}
 	thorough := vThorough()
+	if os.Getenv("VERIF_DEC_NOPREAMBLE") == "" {
+		// Every worker process starts with empty pools: decode, per codec, a payload with a corrupt compression header
+		// and then a valid one (the afterCorrupt subjects do exactly that in one call), so that state poisoned by a
+		// failed decode is met deterministically. Recorded under the subject it belongs to.
+		for si, s := range corpus {
+			if !strings.Contains(s.name, ".afterCorrupt/") {
+				continue
+			}
+			fin := vdExact(s.valid)
+			put("B", vdBegin{Name: s.name, Ver: int(s.ver), Si: si, Ci: vdPreambleCi, InLen: len(fin),
+				Case: vdCase{Kind: "valid", Trig: "worker-start", Prim: "-", Caller: "-", RunVer: -1}})
+			r, exit := vdGuard(func() ([]string, error) { return s.run(fin) })
+			put("R", r)
+			if exit {
+				f.Close()
+				os.Exit(3)
+			}
+		}
+	}
 	for pos := pos0; pos < len(subj); pos++ {
 		si := subj[pos]
 		s := corpus[si]
-		tp := &vdTape{}
-		if err := vdTry(func() error { return s.tape(s.valid, tp) }); err != nil {
-			t.Fatalf("subject %s v%d: tape of valid encoding: %v", s.name, s.ver, err)
-		}
-		cases := vdCases(s, tp, thorough, rand.New(rand.NewSource(vSeed()*7919+int64(si))))
 		start := 0
 		if pos == pos0 {
 			start = ci0
 		}
-		if start == 0 {
-			// the valid encoding first: warms pools / lazily built decompressors, gives the
-			// reference digests
+		// Phase 0: the VALID encoding, through the recording decoder and through the real entry point, guarded like
+		// every other decode: a panic in sarama code here (e.g. pooled state poisoned by an earlier decode in this
+		// process) is a recorded result, not a harness failure. A few attempts: the faulting state may have been
+		// consumed by the fault.
+		var tp *vdTape
+		tapeOK := false
+		tapeRes, tapeErr := "", ""
+		begin := func(ci int, trig string, n int) {
+			put("B", vdBegin{Name: s.name, Ver: int(s.ver), Si: si, Ci: ci, InLen: n,
+				Case: vdCase{Kind: "valid", Trig: trig, Prim: "-", Caller: "-", RunVer: -1}})
+		}
+		for attempt := 0; attempt < 3 && !tapeOK; attempt++ {
+			tp = &vdTape{}
+			begin(-10+attempt, "valid-tape", len(s.valid))
+			r, exit := vdGuard(func() ([]string, error) { return nil, s.tape(s.valid, tp) })
+			put("R", r)
+			if exit {
+				f.Close()
+				os.Exit(3)
+			}
+			tapeOK = r.Res == "ok"
+			tapeRes, tapeErr = r.Res, r.Err
+			if r.Res == "err" || r.Res == "harness" {
+				break
+			}
+		}
+		if !tapeOK {
+			put("S", vdSubjInfo{Si: si, Name: s.name, Ver: int(s.ver), Len: len(s.valid), Orig: []string{}, HasRecs: s.hasRecs, Comp: s.comp,
+				Wrapped: s.wrap != nil, Allow: s.allowKiB, Valid: tapeRes, VErr: "tape: " + tapeErr})
+			continue
+		}
+		cases := vdCases(s, tp, thorough, rand.New(rand.NewSource(vSeed()*7919+int64(si))))
+		if start <= 0 {
+			// warms pools / lazily built decompressors, gives the reference digests
 			fin := vdExact(s.final(s.valid))
-			vdGuard(func() ([]string, error) { return s.run(fin) })
-			r, _ := vdGuard(func() ([]string, error) { return s.run(fin) })
+			var r vdRes
+			for attempt := 0; attempt < 4; attempt++ {
+				begin(-5+attempt, "valid-run", len(fin))
+				var exit bool
+				r, exit = vdGuard(func() ([]string, error) { return s.run(fin) })
+				put("R", r)
+				if exit {
+					f.Close()
+					os.Exit(3)
+				}
+				if attempt >= 1 && r.Res == "ok" || r.Res == "err" || r.Res == "harness" {
+					break
+				}
+			}
 			put("S", vdSubjInfo{Si: si, Name: s.name, Ver: int(s.ver), Len: len(fin), NCells: len(tp.cells), NPush: len(tp.pushes),
 				NCases: len(cases), Orig: r.Got, HasRecs: s.hasRecs, Comp: s.comp, Wrapped: s.wrap != nil, HasCrc: tp.hasCrc(), Allow: s.allowKiB, Valid: r.Res, VErr: r.Err,
 				Hex: hex.EncodeToString(fin)})
+			if r.Res != "ok" {
+				continue
+			}
+			start = 0
 		}
 		for ci := start; ci < len(cases); ci++ {
 			c := cases[ci]
@@ -363,7 +451,7 @@ func TestVerifDecoderWorker(t *testing.T) {
 			if len(fin) <= 160 {
 				hx = hex.EncodeToString(fin)
 			}
-			put("B", vdBegin{Si: si, Ci: ci, InLen: len(fin), Case: c, Hex: hx})
+			put("B", vdBegin{Name: s.name, Ver: int(s.ver), Si: si, Ci: ci, InLen: len(fin), Case: c, Hex: hx})
 			r, exit := vdGuard(func() ([]string, error) { return run(fin) })
 			if !exit && r.Alloc > vdAllocBoundKiB(len(fin), s.comp)+s.allowKiB {
 				for try := 0; try < 3 && (r.ASite == "-" || r.ASite == "?"); try++ {
@@ -472,6 +560,8 @@ func vdRunSubjects(dir string, w int, subj []int) (infos []vdSubjInfo, done []vd
 	}
 	pos, ci := 0, 0
 	posOf := map[int]int{}
+	validDeaths := map[int]int{}
+	noPreamble := false
 	for i, s := range subj {
 		posOf[s] = i
 	}
@@ -480,8 +570,11 @@ func vdRunSubjects(dir string, w int, subj []int) (infos []vdSubjInfo, done []vd
 		if spawns > 4000 {
 			return nil, nil, spawns, fmt.Errorf("worker %d: too many respawns", w)
 		}
-		o := vdSpawn(dir, fmt.Sprintf("w%d", w), spawns, []string{
-			"VERIF_DEC_SUBJECTS=" + strings.Join(sl, ","), fmt.Sprintf("VERIF_DEC_RESUME=%d:%d", pos, ci)})
+		envs := []string{"VERIF_DEC_SUBJECTS=" + strings.Join(sl, ","), fmt.Sprintf("VERIF_DEC_RESUME=%d:%d", pos, ci)}
+		if noPreamble {
+			envs = append(envs, "VERIF_DEC_NOPREAMBLE=1")
+		}
+		o := vdSpawn(dir, fmt.Sprintf("w%d", w), spawns, envs)
 		var open *vdBegin
 		finished := false
 		for _, ln := range o.lines {
@@ -507,7 +600,21 @@ func vdRunSubjects(dir string, w int, subj []int) (infos []vdSubjInfo, done []vd
 					return nil, nil, spawns, fmt.Errorf("worker %d: stray result line", w)
 				}
 				done = append(done, vdDone{*open, r})
-				pos, ci = posOf[open.Si], open.Ci+1
+				switch {
+				case open.Ci == vdPreambleCi:
+					if r.Res == "hang" { // the worker exits after a hang: do not run into it again
+						noPreamble = true
+					}
+				case open.Ci < 0 && r.Res == "hang":
+					validDeaths[open.Si]++
+					if validDeaths[open.Si] >= 3 {
+						pos, ci = posOf[open.Si]+1, 0
+					} else {
+						pos, ci = posOf[open.Si], open.Ci+1
+					}
+				default:
+					pos, ci = posOf[open.Si], open.Ci+1
+				}
 				open = nil
 			case 'D':
 				finished = true
@@ -523,7 +630,7 @@ func vdRunSubjects(dir string, w int, subj []int) (infos []vdSubjInfo, done []vd
 				// died without a Go traceback (e.g. the C runtime could not create a thread right below the
 				// address-space limit): once more, alone, with more head room
 				o2 := vdSpawn(dir, fmt.Sprintf("w%dr", w), spawns, []string{"VERIF_DEC_SUBJECTS=" + strings.Join(sl, ","),
-					fmt.Sprintf("VERIF_DEC_RESUME=%d:%d", posOf[open.Si], open.Ci), "VERIF_DEC_ONECASE=1", "VERIF_DEC_ASLIMIT_GIB=4"})
+					fmt.Sprintf("VERIF_DEC_RESUME=%d:%d", posOf[open.Si], open.Ci), "VERIF_DEC_ONECASE=1", "VERIF_DEC_ASLIMIT_GIB=4", "VERIF_DEC_NOPREAMBLE=1"})
 				var r2 *vdRes
 				for _, ln := range o2.lines {
 					if len(ln) > 2 && ln[0] == 'R' {
@@ -556,7 +663,17 @@ func vdRunSubjects(dir string, w int, subj []int) (infos []vdSubjInfo, done []vd
 				allocKiB = 1 << 30
 			}
 			done = append(done, vdDone{*open, vdRes{Res: res, Site: site, ASite: asite, Cause: cause, Err: msg, Alloc: allocKiB, Got: []string{}}})
+			if open.Ci == vdPreambleCi { // died in the worker-start decodes: recorded; do not repeat them, resume where we were
+				noPreamble = true
+				continue
+			}
 			pos, ci = posOf[open.Si], open.Ci+1
+			if open.Ci < 0 { // died while decoding the VALID encoding: the phase is repeated; a subject that keeps dying is left
+				validDeaths[open.Si]++
+				if validDeaths[open.Si] >= 3 {
+					pos, ci = posOf[open.Si]+1, 0
+				}
+			}
 			continue
 		}
 		if o.code == 3 { // hang: result line was written before the exit
@@ -660,10 +777,26 @@ func TestVerifDecoder(t *testing.T) {
 		sis = append(sis, si)
 	}
 	sort.Ints(sis)
+	for si, ds := range bySubj { // a subject whose worker died in the valid phase every time has no info line
+		if _, ok := infos[si]; !ok && len(ds) > 0 {
+			infos[si] = vdSubjInfo{Si: si, Name: ds[0].B.Name, Ver: ds[0].B.Ver, Orig: []string{}, Valid: "crash"}
+			sis = append(sis, si)
+		}
+	}
+	sort.Ints(sis)
 	for _, si := range sis {
 		in := infos[si]
-		if in.Valid != "ok" {
+		for _, d := range bySubj[si] {
+			if d.R.Res == "harness" {
+				t.Fatalf("subject %s v%d case %d: the harness itself panicked at %s: %s", in.Name, in.Ver, d.B.Ci, d.R.Site, d.R.Err)
+			}
+		}
+		if in.Valid == "err" || in.Valid == "harness" || in.Valid == "" {
+			// (a panic / crash of sarama on the valid encoding is a recorded result below, not a harness problem)
 			t.Fatalf("subject %s v%d: the valid encoding does not decode (%s %s)", in.Name, in.Ver, in.Valid, in.VErr)
+		}
+		if in.Orig == nil {
+			in.Orig = []string{}
 		}
 		nSubj++
 		rec.Reset(kv{"fam": "body", "orig": in.Orig})
